@@ -25,13 +25,14 @@ func JSONBind(text []byte, v interface{}) {
 	}
 }
 
-// JSONSafe is the condition "every byte of s is carried verbatim inside a JSON string literal":
-// 0x20..0x7f except '"' and '\\' (no escapes needed, no UTF-8 repair by the decoder).
+// JSONSafe is the condition "every byte of s is carried verbatim inside a JSON string literal by both the decoder and
+// the encoder of encoding/json": 0x20..0x7f except '"', '\\' and the HTML-escaped '<', '>', '&'.
 func JSONSafe(s string) bool {
 	ok := true
 	for i := 0; i < len(s); i++ {
 		b := s[i]
 		ok = And(ok, And(And(b >= 0x20, b < 0x80), And(b != '"', b != '\\')))
+		ok = And(ok, And(b != '<', And(b != '>', b != '&')))
 	}
 	return ok
 }
@@ -42,29 +43,49 @@ type CallDoc struct {
 	Args []interface{}
 }
 
-// CallShape bounds the governance call documents produced by NondetCall.
-type CallShape struct {
-	Names    []string  // command names to choose from
-	SymName  []int     // lengths of the additional "unknown, symbolic name" alternatives
-	MaxArgs  int       // Args has 0..MaxArgs elements; one more alternative: the "Args" key is absent (nil slice)
-	SymStr   []int     // lengths of symbolic string arguments
-	Tokens   []string  // well-formed concrete string arguments (names, addresses, ids, numbers ...)
-	Nums     []float64 // number arguments (encoding/json decodes every number into float64) ...
-	NumText  []string  // ... and their JSON spelling (NumText[i] must decode to Nums[i]; checked natively by JSONBind)
-	Nest     bool      // nested arrays / objects with one symbolic string inside, besides the empty ones
-	ArgKinds int       // if > 0: only the first ArgKinds alternatives of the list below are used
+// Alt is one alternative for an argument of a call document: either a concrete JSON text with the value encoding/json
+// decodes it to, or (Kind != 0) a shape with one symbolic string inside.
+type Alt struct {
+	Kind int // 0 concrete; 1 symbolic string of length N; 2 [sym]; 3 {"k":sym}
+	N    int
+	Text string
+	Val  interface{}
 }
 
-// number of alternatives for one argument
-func (sh *CallShape) argAlts() int {
-	n := len(sh.SymStr) + len(sh.Tokens) + len(sh.Nums) + 2 /*bool*/ + 1 /*null*/ + 2 /*[] {}*/
-	if sh.Nest {
-		n += 2
+func ASym(n int) Alt    { return Alt{Kind: 1, N: n} }          // "s" with n symbolic bytes
+func AStr(s string) Alt { return Alt{Text: quote(s), Val: s} } // a well-formed concrete string
+func ANull() Alt        { return Alt{Text: "null", Val: nil} }
+func ABool(b bool) Alt {
+	if b {
+		return Alt{Text: "true", Val: true}
 	}
-	if sh.ArgKinds > 0 && sh.ArgKinds < n {
-		n = sh.ArgKinds
+	return Alt{Text: "false", Val: false}
+}
+func ANum(t string, f float64) Alt     { return Alt{Text: t, Val: f} } // t must decode to f (checked natively)
+func AArr() Alt                        { return Alt{Text: "[]", Val: []interface{}{}} }
+func AObj() Alt                        { return Alt{Text: "{}", Val: map[string]interface{}{}} }
+func AArrSym() Alt                     { return Alt{Kind: 2, N: 1} }
+func AObjSym() Alt                     { return Alt{Kind: 3, N: 1} }
+func ADoc(t string, v interface{}) Alt { return Alt{Text: t, Val: v} } // any concrete document
+
+// CallShape bounds the governance call documents produced by NondetCall.
+type CallShape struct {
+	Names   []string // command names to choose from
+	SymName []int    // lengths of the additional "unknown, symbolic name" alternatives
+	MaxArgs int      // Args has 0..MaxArgs elements; one more alternative: the "Args" key is absent (nil slice)
+	Alts    []Alt    // alternatives for each argument
+}
+
+// quote renders a concrete string as a JSON string literal ('"' and '\\' escaped; other bytes must be verbatim ones).
+func quote(s string) string {
+	out := `"`
+	for i := 0; i < len(s); i++ {
+		if s[i] == '"' || s[i] == '\\' {
+			out += "\\"
+		}
+		out += s[i : i+1]
 	}
-	return n
+	return out + `"`
 }
 
 // symStr returns a symbolic string of length n restricted to JSON-verbatim bytes.
@@ -74,45 +95,25 @@ func symStr(name string, n int) string {
 	return s
 }
 
-// nondetArg returns (JSON text, decoded value) of one argument. Alternatives, in this order:
-// null, symbolic strings, tokens, numbers, true, false, [], {}, [sym], {"k":sym}.
+// nondetArg returns (JSON text, decoded value) of one argument.
 func nondetArg(tag string, sh *CallShape) (string, interface{}) {
-	k := Choice(tag+".kind", sh.argAlts())
-	if k < 0 || k >= sh.argAlts() {
+	k := Choice(tag+".kind", len(sh.Alts))
+	if k < 0 || k >= len(sh.Alts) {
 		Assume(false)
 	}
-	if k == 0 {
-		return "null", nil
-	}
-	k--
-	if k < len(sh.SymStr) {
-		s := symStr(tag+".str", sh.SymStr[k])
-		return `"` + s + `"`, s
-	}
-	k -= len(sh.SymStr)
-	if k < len(sh.Tokens) {
-		return `"` + sh.Tokens[k] + `"`, sh.Tokens[k]
-	}
-	k -= len(sh.Tokens)
-	if k < len(sh.Nums) {
-		return sh.NumText[k], sh.Nums[k]
-	}
-	k -= len(sh.Nums)
-	switch k {
-	case 0:
-		return "true", true
+	a := sh.Alts[k]
+	switch a.Kind {
 	case 1:
-		return "false", false
+		s := symStr(tag+".str", a.N)
+		return `"` + s + `"`, s
 	case 2:
-		return "[]", []interface{}{}
-	case 3:
-		return "{}", map[string]interface{}{}
-	case 4:
-		s := symStr(tag+".in", 1)
+		s := symStr(tag+".in", a.N)
 		return `["` + s + `"]`, []interface{}{s}
+	case 3:
+		s := symStr(tag+".in", a.N)
+		return `{"k":"` + s + `"}`, map[string]interface{}{"k": s}
 	}
-	s := symStr(tag+".in", 1)
-	return `{"k":"` + s + `"}`, map[string]interface{}{"k": s}
+	return a.Text, a.Val
 }
 
 // NondetCall returns an arbitrary governance call document inside the shape bound: its JSON text (bound to the value
@@ -126,6 +127,9 @@ func NondetCall(tag string, sh *CallShape) ([]byte, *CallDoc) {
 	}
 	if k < len(sh.Names) {
 		doc.Name = sh.Names[k]
+		if quote(doc.Name) != `"`+doc.Name+`"` {
+			panic("vf.NondetCall: command names must not need escaping")
+		}
 	} else {
 		doc.Name = symStr(tag+".name.sym", sh.SymName[k-len(sh.Names)])
 	}
